@@ -66,6 +66,24 @@ fn entry_wrapper_diff(e: &VfsEntry) -> Option<String> {
             return Some(format!("follow sequence {:?}: backend entry {:?} wrapper {:?}", seq, a, b));
         }
     }
+    // every accessor of the wrapper vs the same accessor of the entry it wraps, after every follow chain
+    // (follow() hands back a VfsEntry, so the wrapped entry has to be taken out again)
+    fn unwrapped(e: &VfsEntry) -> EntryInfo {
+        match e {
+            VfsEntry::Memfs(x) => entry_info(x),
+            VfsEntry::Stdfs(x) => entry_info(x),
+        }
+    }
+    for seq in [&[][..], &[true], &[false], &[true, true], &[true, false], &[false, true]] {
+        let mut v = e.clone();
+        for b in seq {
+            v = v.follow(*b);
+        }
+        let (a, b) = (unwrapped(&v), entry_info(&v));
+        if a != b {
+            return Some(format!("after follow {:?}: wrapped entry {:?} wrapper {:?}", seq, a, b));
+        }
+    }
     // path()/alt()/rel() reference accessors vs *_buf
     if e.path() != e.path_buf().as_path() || e.alt() != e.alt_buf().as_path() || e.rel() != e.rel_buf().as_path() {
         return Some("path()/alt()/rel() differ from their *_buf forms".into());
@@ -95,13 +113,14 @@ pub fn check_ops(ops: &[Op]) -> CaseResult {
     let upcast = Memfs::new().upcast();
     // a fourth instance is driven directly and only upcast at the END of the history
     let late = Memfs::new();
+    let (mut ha, mut hb, mut hc, mut hl) = (Handles::default(), Handles::default(), Handles::default(), Handles::default());
     mark("ops", "[");
     for (i, op) in ops.iter().enumerate() {
         mark_append(&format!("{},", serde_json::to_string(op).unwrap()));
-        let a = apply(&direct, op);
-        let _ = apply(&late, op);
-        let b = apply(&wrapped, op);
-        let c = apply(&upcast, op);
+        let a = apply_h(&direct, op, &mut ha);
+        let _ = apply_h(&late, op, &mut hl);
+        let b = apply_h(&wrapped, op, &mut hb);
+        let c = apply_h(&upcast, op, &mut hc);
         record(op, &a);
         if let Out::Panic(m) = &a {
             // a panic of the backend itself is C12's business; here only the wrapper relation matters
@@ -148,6 +167,9 @@ pub fn check_ops(ops: &[Op]) -> CaseResult {
             }
         }
     }
+    // open handles flush when dropped: both instances drop theirs before the comparison
+    drop(hl);
+    drop(ha);
     // upcast after the history: indistinguishable from the direct instance, including its effect (none)
     let late = late.upcast();
     let late_tree = match &late {
@@ -177,10 +199,17 @@ pub fn check_ops(ops: &[Op]) -> CaseResult {
 
 /// Stdfs (trait impl on the unit struct) vs Vfs::Stdfs on twin sandbox directories
 pub fn check_stdfs_twin(op_t: &Op) -> CaseResult {
+    check_stdfs_twin_prog(std::slice::from_ref(op_t))
+}
+
+/// A program of calls (persistent write/append handles included) on twin sandbox directories: the result of
+/// every call and the std::fs-observed tree after every call are the same for Stdfs and Vfs::Stdfs
+pub fn check_stdfs_twin_prog(prog: &[Op]) -> CaseResult {
     use std::sync::atomic::{AtomicU64, Ordering};
     static SEQ: AtomicU64 = AtomicU64::new(0);
     let base = crate::sandbox::root();
-    let run = |wrapped: bool| -> (Out, Vec<(String, String)>, Option<String>) {
+    type Obs = Vec<(Out, Vec<(String, String)>)>;
+    let run = |wrapped: bool| -> (Obs, Option<String>) {
         let root = format!("{}/tw{}", base.to_str().unwrap(), SEQ.fetch_add(1, Ordering::Relaxed));
         let _ = std::fs::create_dir_all(&root);
         let sub = |o: &Op| -> Op { serde_json::from_str(&serde_json::to_string(o).unwrap().replace('@', &root)).unwrap() };
@@ -193,56 +222,64 @@ pub fn check_stdfs_twin(op_t: &Op) -> CaseResult {
             }
             let _ = if wrapped { apply(&vfs, &o) } else { apply(&direct, &o) };
         }
-        let op = sub(op_t);
-        let out = if wrapped { apply(&vfs, &op) } else { apply(&direct, &op) };
-        // entry accessors through the wrapper
+        let mut handles = Handles::default();
+        let mut obs: Obs = vec![];
         let mut acc = None;
-        if wrapped {
-            if let Op::Entry(p) = &op {
-                if let Ok(e) = vfs.entry(p) {
-                    acc = entry_wrapper_diff(&e);
+        let st = |s: String| s.replace(&root, "@");
+        for op_t in prog {
+            let op = sub(op_t);
+            let out = if wrapped { apply_h(&vfs, &op, &mut handles) } else { apply_h(&direct, &op, &mut handles) };
+            // entry accessors through the wrapper
+            if wrapped && acc.is_none() {
+                if let Op::Entry(p) = &op {
+                    if let Ok(e) = vfs.entry(p) {
+                        acc = entry_wrapper_diff(&e);
+                    }
                 }
             }
+            let t = crate::props::c20::tree_from_disk(&root);
+            let out = match out {
+                Out::Path(p) => Out::Path(st(p)),
+                Out::Paths(v) => Out::Paths(v.into_iter().map(st).collect()),
+                Out::Seq(v) => {
+                    let mut v: Vec<String> = v.into_iter().map(st).collect();
+                    v.sort();
+                    Out::Seq(v)
+                },
+                Out::Entry(mut e) => {
+                    e.path = st(e.path);
+                    e.alt = st(e.alt);
+                    if e.path == "@" {
+                        e.file_name = None; // the twin directories are named differently
+                    }
+                    Out::Entry(e)
+                },
+                Out::Err(_) => Out::Err(String::new()),
+                x => x,
+            };
+            let tree: Vec<(String, String)> = t.nodes.iter().map(|(k, n)| (k.clone(), match n {
+                Node::Dir { mode, .. } => format!("dir {:o}", mode),
+                Node::File { data, mode, .. } => format!("file {:o} {:?}", mode, data),
+                Node::Link { target, .. } => format!("link {}", target),
+            })).collect();
+            obs.push((out, tree));
         }
-        let t = crate::props::c20::tree_from_disk(&root);
+        drop(handles);
         let _ = std::fs::remove_dir_all(&root);
-        let st = |s: String| s.replace(&root, "@");
-        let out = match out {
-            Out::Path(p) => Out::Path(st(p)),
-            Out::Paths(v) => Out::Paths(v.into_iter().map(st).collect()),
-            Out::Seq(v) => {
-                let mut v: Vec<String> = v.into_iter().map(st).collect();
-                v.sort();
-                Out::Seq(v)
-            },
-            Out::Entry(mut e) => {
-                e.path = st(e.path);
-                e.alt = st(e.alt);
-                if e.path == "@" {
-                    e.file_name = None; // the twin directories are named differently
-                }
-                Out::Entry(e)
-            },
-            Out::Err(_) => Out::Err(String::new()),
-            x => x,
-        };
-        let tree: Vec<(String, String)> = t.nodes.iter().map(|(k, n)| (k.clone(), match n {
-            Node::Dir { mode, .. } => format!("dir {:o}", mode),
-            Node::File { data, mode, .. } => format!("file {:o} {:?}", mode, data),
-            Node::Link { target, .. } => format!("link {}", target),
-        })).collect();
-        (out, tree, acc)
+        (obs, acc)
     };
-    let (a, ta, _) = run(false);
-    let (b, tb, acc) = run(true);
+    let (a, _) = run(false);
+    let (b, acc) = run(true);
     if let Some(d) = acc {
         return Err(Failure::new("entry|accessor-differs-through-VfsEntry|stdfs", d));
     }
-    if a != b {
-        return Err(Failure::new(format!("{}|result-differs-through-wrapper|stdfs", op_t.name()), format!("{:?}: Stdfs {:?} Vfs::Stdfs {:?}", op_t, a, b)));
-    }
-    if ta != tb {
-        return Err(Failure::new(format!("{}|effect-differs-through-wrapper|stdfs", op_t.name()), format!("{:?}: trees differ {:?} vs {:?}", op_t, ta, tb)));
+    for (i, op_t) in prog.iter().enumerate() {
+        if a[i].0 != b[i].0 {
+            return Err(Failure::new(format!("{}|result-differs-through-wrapper|stdfs", op_t.name()), format!("step {} of {:?}: Stdfs {:?} Vfs::Stdfs {:?}", i + 1, prog, a[i].0, b[i].0)));
+        }
+        if a[i].1 != b[i].1 {
+            return Err(Failure::new(format!("{}|effect-differs-through-wrapper|stdfs", op_t.name()), format!("step {} of {:?}: trees differ {:?} vs {:?}", i + 1, prog, a[i].1, b[i].1)));
+        }
     }
     Ok(())
 }
@@ -271,7 +308,7 @@ fn scenario_inner() -> Vec<Op> {
 }
 
 pub fn run(c: &Ctx) {
-    c.set_rule("(a) matrix: from a fixed mixed scenario (dirs, files with different modes/owners/bytes, link to file, link to dir, dangling link, cwd below root) every call form of the finite alphabet (every trait method incl. builder variants and handles) on every path of the scenario (absolute and cwd-relative; ordered pairs for copy/move/symlink) is executed on a plain Memfs, through Vfs::Memfs(..) and through Memfs::upcast(): identical result (value / error kind) and identical dump-derived tree after every call; every Entry accessor (path, alt, rel, *_buf, file_name, follow(true/false/twice), following, is_*, mode, upcast, clone) of the inner MemfsEntry vs the VfsEntry. (b) the same matrix on the real-filesystem backend: the Stdfs unit struct (trait impl) vs Vfs::Stdfs on twin tmpfs directories, results and std::fs-observed trees equal. (c) the C01 random histories executed the three Memfs ways. Non-trivial = call whose result is not an error and not 'false' on at least one path (a mis-routed arm would differ); distinct by (scenario prefix, call).");
+    c.set_rule("(a) matrix: from a fixed mixed scenario (dirs, files with different modes/owners/bytes, link to file, link to dir, dangling link, cwd below root) every call form of the finite alphabet (every trait method incl. builder variants and handles) on every path of the scenario (absolute and cwd-relative; ordered pairs for copy/move/symlink) is executed on a plain Memfs, through Vfs::Memfs(..) and through Memfs::upcast(): identical result (value / error kind) and identical dump-derived tree after every call; every Entry accessor (path, alt, rel, *_buf, file_name, follow(true/false/twice), following, is_*, mode, upcast, clone) of the inner MemfsEntry vs the VfsEntry. (b) the same matrix on the real-filesystem backend: the Stdfs unit struct (trait impl) vs Vfs::Stdfs on twin tmpfs directories, results and std::fs-observed trees equal; plus every program of length 4 (quick) / 5 (thorough) over {open append x2 handles, open write, write x2, flush, drop x2, read} on one file with a tree observation after every step (buffering inside the wrapper would show). (c) the C01 random histories (with persistent write/append handles) executed the three Memfs ways. Non-trivial = call whose result is not an error and not 'false' on at least one path (a mis-routed arm would differ); distinct by (scenario prefix, call).");
     c.assume("Stdfs twin runs use absolute paths inside a sandbox (set_cwd excluded: process-global)");
     let base = scenario();
     let paths = ["/", "/d", "/d/f", "/d/sub", "/d/sub/g", "/exe", "/lf", "/ld", "/dang", "/nope", "f", "sub/g", "..", "../lf", "/d/new", "/new/deep"];
@@ -330,10 +367,58 @@ pub fn run(c: &Ctx) {
         record(op, &Out::Unit);
         c.judge("stdfs-twin", op, check_stdfs_twin(op));
     });
+    // handle programs on the twins: every sequence over two handles on one file with writes, flushes, drops and reads
+    let hf = "@/d/new".to_string();
+    let alpha = vec![
+        Op::HOpen(0, true, hf.clone()),
+        Op::HOpen(1, true, hf.clone()),
+        Op::HOpen(0, false, hf.clone()),
+        Op::HWrite(0, b"a1".to_vec()),
+        Op::HWrite(1, b"b1".to_vec()),
+        Op::HFlush(0),
+        Op::HDrop(0),
+        Op::HDrop(1),
+        Op::ReadAll(hf.clone()),
+    ];
+    let len = c.tier.pick(4u32, 5);
+    let k = alpha.len() as u64;
+    par_for(k.pow(len), 8, |i| {
+        let mut prog = vec![];
+        let mut x = i;
+        for _ in 0..len {
+            prog.push(alpha[(x % k) as usize].clone());
+            x /= k;
+        }
+        // a final read makes buffered bytes that never reached the file observable as a result as well
+        prog.push(Op::ReadAll(hf.clone()));
+        mark("stdfs-twin-prog", &serde_json::to_string(&prog).unwrap());
+        c.eval(1);
+        let writes_on_open = {
+            let mut open = [false; 2];
+            let mut w = 0;
+            for o in &prog {
+                match o {
+                    Op::HOpen(s, ..) => open[*s as usize] = true,
+                    Op::HDrop(s) => open[*s as usize] = false,
+                    Op::HWrite(s, _) if open[*s as usize] => w += 1,
+                    _ => {},
+                }
+            }
+            w
+        };
+        if writes_on_open > 0 {
+            c.nontrivial(fp(&("twin-prog", i)));
+            c.class("stdfs-twin:handle-program-with-write");
+        }
+        if i % 211 == 0 {
+            c.sample(|| json!({"kind":"stdfs-twin-prog","ops":prog}));
+        }
+        c.judge("stdfs-twin-prog", &prog, check_stdfs_twin_prog(&prog));
+    });
     crate::sandbox::cleanup();
     // (b) random histories
-    let cfg = GenCfg { names: NAMES3, avoid_through_link: false, plain_spelling: false, wild: true, handles: false };
-    let n = c.tier.pick(3_000, 60_000);
+    let cfg = GenCfg { names: NAMES3, avoid_through_link: false, plain_spelling: false, wild: true, handles: true };
+    let n = c.tier.pick(20_000, 200_000);
     run_proptest("ops", 1301, || history(40), n, |specs: &Vec<OpSpec>| {
         // resolve against a model that follows a scratch Memfs
         let mem = Memfs::new();
@@ -362,6 +447,12 @@ pub fn run(c: &Ctx) {
 
 pub fn replay(kind: &str, case: &Value) -> Option<CaseResult> {
     match kind {
+        "stdfs-twin-prog" => {
+            let ops: Vec<Op> = serde_json::from_value(case.clone()).ok()?;
+            let r = check_stdfs_twin_prog(&ops);
+            crate::sandbox::cleanup();
+            Some(r)
+        },
         "ops" => {
             let ops: Vec<Op> = serde_json::from_value(case.clone()).ok()?;
             Some(check_ops(&ops))
